@@ -708,7 +708,7 @@ impl Property for C07 {
     }
 
     fn cases(&self, tier: Tier) -> u32 {
-        tier.pick(20_000, 600_000)
+        tier.pick(150_000, 1_500_000)
     }
 
     fn rule(&self) -> String {
